@@ -156,9 +156,7 @@ func (a *T0x0200AdditionDetails) parse(body []byte) error {
 		}
 		return true
 	}
-	if a.Additions == nil {
-		a.Additions = make(map[consts.JT808LocationAdditionType]Addition)
-	}
+	a.Additions = make(map[consts.JT808LocationAdditionType]Addition)
 	for index < len(body) {
 		if index+2 > len(body) {
 			return protocol.ErrBodyLengthInconsistency
